@@ -2,6 +2,7 @@
 (counts = enumerations, evaluated on the implementation's outputs only), sequence shrinking,
 running harness + model."""
 import os
+import re
 import shutil
 
 import vlib
@@ -220,12 +221,29 @@ def c09_oracle(order, cases, impl):
     policy = {}       # seq -> expiry policy
     ttl_used = set()  # sequences that contain an expiry command
     dumped = {}       # seq -> {table: number of non-empty (type, key) parts of the last dump}
+    sizes = {}        # seq -> {engine key class: number of keys the last dump accounts for}
+    fresh = {}        # seq -> no write since the last dump
     for cid in order:
         c = cases[cid]
         seq = cid.split(".")[0]
         kind = c[0]
         if kind == "S":
             policy[seq] = c[1]
+            continue
+        if kind == "E":
+            # engine keys per class = what the final dump enumerates (model-free). Under local_deletion nothing may be
+            # left behind: size/meta keys = collections that exist, element keys = sum of their sizes (zset: member
+            # keys and score index keys), kv keys = strings that exist
+            out = impl.get(cid)
+            if out is not None and policy.get(seq) == "local" and fresh.get(seq) and seq in sizes:
+                checked += 1
+                got = dict(x.split("=", 1) for x in out.split(" ") if "=" in x)
+                for cls, want in sizes[seq].items():
+                    if got.get(cls) != ":%d" % want:
+                        fails.append(dict(name="c09-" + cid, cid=cid, key=cls,
+                                          what="engine holds %s keys of class %s, the dump enumerates %d" % (got.get(cls), cls, want),
+                                          last_write=None, signature="engine keys left behind or missing (class %s)" % cls, obs=out[:300]))
+                        break
             continue
         if kind == "T":
             # table key counter = number of keys that exist in the table (direct, model-free): comparable with the
@@ -251,6 +269,7 @@ def c09_oracle(order, cases, impl):
             hist[nm] = hist.get(nm, 0) + 1
             if nm.endswith("expire") or nm.endswith("persist") or nm == "setex":
                 ttl_used.add(seq)
+            fresh[seq] = False
             keys = a[1:] if nm == "del" else a[1:2]
             for k in keys:
                 tk = (seq, type_of_cmd(nm), k)
@@ -285,6 +304,21 @@ def c09_oracle(order, cases, impl):
                     t = k[:k.index(b":")]
                     per_table[t] = per_table.get(t, 0) + 1
             dumped[seq] = per_table
+            sz = dict(kv=0, hsize=0, hash=0, ssize=0, set=0, zsize=0, zset=0, zscore=0, lmeta=0, list=0)
+            for _, o in obs:
+                m = re.match(r"([KHSLZ]) (?:len|card|get)=(\S+)", o)
+                if not m:
+                    continue
+                ty, v = m.group(1), m.group(2)
+                n = int(v[1:]) if v.startswith(":") and v[1:].lstrip("-").isdigit() else None
+                if ty == "K":
+                    sz["kv"] += 1
+                elif n is not None:
+                    for cls, unit in {"H": (("hsize", 0), ("hash", 1)), "S": (("ssize", 0), ("set", 1)),
+                                      "Z": (("zsize", 0), ("zset", 1), ("zscore", 1)), "L": (("lmeta", 0), ("list", 1))}[ty]:
+                        sz[cls] += n if unit else 1
+            sizes[seq] = sz
+            fresh[seq] = True
         for key, o in obs:
             if not key_valid(key):
                 continue
@@ -416,6 +450,57 @@ def plan(ctx):
     return runs
 
 
+# ---------------------------------------------------------------- big collections (RangeDeleteNum boundary)
+def big_plan(ctx):
+    """(sub, datasim args) of the big-collection class. Every case set runs on mem, pebble AND rocksdb (two of the
+    removal paths differ per engine: DeleteRange, IgnoreRangeDeletions); the model runs once per case set."""
+    if ctx.tier == "quick":
+        return [("big-hsl", "-big 4999,5000,5001 -types hsl -policy local"),
+                ("big-z1", "-big 5001 -types z -policy local"),
+                ("big-z0", "-big 4999,5000 -types z -policy local -bigfirst")]
+    return [("big-h", "-big 4999,5000,5001 -types h -policy mix"),
+            ("big-s", "-big 4999,5000,5001 -types s -policy mix"),
+            ("big-l", "-big 4999,5000,5001,10001 -types l -policy mix"),
+            ("big-z-local-a", "-big 4999,5000 -types z -policy local"),
+            ("big-z-local-b", "-big 5001 -types z -policy local"),
+            ("big-z-compact", "-big 5000,5001 -types z -policy compact")]
+
+
+def big_start(ctx):
+    """generate + run on mem, start the model in the background; returns handles for big_collect"""
+    import subprocess
+    hs = []
+    for sub, args in big_plan(ctx):
+        d = run_datasim(ctx, sub, args + " -engine mem")
+        mo = open(os.path.join(d, "model.out"), "w")
+        p = subprocess.Popen([vlib.modelrun_path("Data")], stdin=open(os.path.join(d, "cases.tsv")), stdout=mo, cwd=d)
+        hs.append((sub, d, p, mo))
+    return hs
+
+
+def big_collect(ctx, hs):
+    res = []
+    for sub, d, p, mo in hs:
+        # the other engines replay the same lines while the model is still running
+        dirs = [("mem", d)]
+        for eng in ("pebble", "rocksdb"):
+            dirs.append((eng, run_datasim(ctx, sub + "-" + eng, "-replay %s -engine %s" % (os.path.join(d, "cases.tsv"), eng))))
+        rc = p.wait(timeout=2400)
+        mo.close()
+        if rc != 0:
+            log("MODEL RUN FAILED on %s" % sub)
+            raise SystemExit(2)
+        order, cases = parse_cases(os.path.join(d, "cases.tsv"))
+        mraw, _ = vlib.read_out(os.path.join(d, "model.out"))
+        mmap, mspec = {}, {}
+        for k, v in mraw.items():
+            mmap[k], mspec[k] = spec_of(v)
+        for eng, dd in dirs:
+            impl, _ = vlib.read_out(os.path.join(dd, "impl.out"))
+            res.append(dict(dir=dd, order=order, cases=cases, impl=impl, map=mmap, spec=mspec, engine=eng))
+    return res
+
+
 def corpus_lines(prop_dirs):
     lines = []
     for pd in prop_dirs:
@@ -454,6 +539,7 @@ def all_runs(ctx, corpus_dirs):
         eng = (rp.get("case") or {}).get("engine", "mem")
         res.append(run_pair(ctx, "replay", "-replay " + p, eng))
         return res
+    big = big_start(ctx)
     cl = corpus_lines(corpus_dirs)
     if cl:
         p = os.path.join(ctx.run_dir, "corpus_in.tsv")
@@ -462,6 +548,7 @@ def all_runs(ctx, corpus_dirs):
         res.append(run_pair(ctx, "corpus", "-replay " + p, "mem"))
     for sub, args, eng in plan(ctx):
         res.append(run_pair(ctx, sub, args, eng))
+    res += big_collect(ctx, big)
     return res
 
 
@@ -500,6 +587,9 @@ def shrunk_case(ctx, r, cid, oracle):
     """the sequence up to cid, shrunk while oracle still fails; returns the case lines"""
     seq = cid.split(".")[0]
     lines = seq_lines(r["order"], r["cases"], seq, upto=cid)
+    if seq.startswith("b"):
+        # big-collection sequences: a handful of lines, the commands carry thousands of members; keep them as they are
+        return [l if len(l) < 4000 else l[:4000] + "...(%d characters)" % len(l) for l in lines]
     try:
         return shrink(ctx, lines, r["engine"], oracle, budget=80)
     except Exception:
